@@ -1,4 +1,5 @@
 import GoPlugin.Props.C06
+import GoPlugin.Props.IdAlloc
 import GoPlugin.Generated.Facts
 /- C06 at the facts extracted from the current source. -/
 namespace GoPlugin.Instance.C06
@@ -23,5 +24,11 @@ theorem frame_good : Facts.muxFrame.Good := by decide
 theorem holds_app_bytes_complete (hdr app : Bytes) (hh : hdr.length = 4) (k : Nat) :
     MuxFrame.readHeader Facts.muxFrame ((MuxFrame.sent hdr app).take (4 + k)) ((MuxFrame.sent hdr app).drop (4 + k)) = some (hdr, app) :=
   app_bytes_complete _ frame_good hdr app hh k
+
+theorem idalloc_good : Facts.idAllocMux.Good := by decide
+
+/-- `MuxBroker.NextId` never hands the same ID to two callers, however their calls interleave -/
+theorem holds_ids_distinct (es : List IdAlloc.Ev) (s : IdAlloc.State) (hr : IdAlloc.runFrom Facts.idAllocMux IdAlloc.init es = some s) :
+    s.issued.Nodup := (Props.IdAlloc.ids_distinct _ idalloc_good es s hr).1
 
 end GoPlugin.Instance.C06
